@@ -219,9 +219,13 @@ def replay_activation(fl, FA, method="General", vals=None, seed=0, budget=400, *
         out = fl.OutputVariable(name="y", minimum=0.0, maximum=10.0, aggregation=None, defuzzifier=fl.WeightedAverage(),
                                 terms=[fl.Constant(f"c{i}", float(i + 1)) for i in range(n)])
         act = getattr(fl, method)(**params)
+        # every second case: each rule first concludes a DISABLED output variable `d` (which receives nothing) and then `y` - "exactly the selected rules
+        # contribute" includes that a selected rule's contribution to `y` is not lost on the way
+        two = cases % 2 == 1
+        dis = fl.OutputVariable(name="d", enabled=False, minimum=0.0, maximum=1.0, aggregation=None, defuzzifier=fl.WeightedAverage(), terms=[fl.Constant("q", 1.0)])
         rb = fl.RuleBlock(name="rb", conjunction=None, disjunction=None, implication=None, activation=act,
-                          rules=[fl.Rule.create(f"if x{i} is up then y is c{i}") for i in range(n)])
-        e = fl.Engine(name="w", input_variables=ins, output_variables=[out], rule_blocks=[rb], load=False)
+                          rules=[fl.Rule.create(f"if x{i} is up then " + ("d is q and " if two else "") + f"y is c{i}") for i in range(n)])
+        e = fl.Engine(name="w", input_variables=ins, output_variables=[out, dis] if two else [out], rule_blocks=[rb], load=False)
         for i, r in enumerate(rb.rules):
             if loaded[i]:
                 r.load(e)
@@ -244,13 +248,13 @@ def replay_activation(fl, FA, method="General", vals=None, seed=0, budget=400, *
         exp_deg = [float(dfin[i]) if loaded[i] else 0.0 for i in range(n)]
         got_deg = [float(r.activation_degree) for r in rb.rules]
         ok = (len(got_terms) == len(exp_terms) and all(g[0] == x[0] and FA.same(g[1], x[1]) for g, x in zip(got_terms, exp_terms))
-              and got_flags == exp_flags and all(FA.same(a, b) for a, b in zip(got_deg, exp_deg)))
+              and got_flags == exp_flags and all(FA.same(a, b) for a, b in zip(got_deg, exp_deg)) and not dis.fuzzy.terms)
         exp_terms = [(t, None if x != x else x) for t, x in exp_terms]; exp_deg = [None if x != x else x for x in exp_deg]        # JSON-friendly NaN
         got_deg = [None if x != x else x for x in got_deg]
         if not ok:
             return {"failed": True, "expected": {"terms": exp_terms, "triggered": exp_flags, "degrees": exp_deg},
                     "observed": {"terms": got_terms, "triggered": got_flags, "degrees": got_deg}, "cases": cases,
-                    "call": f"{method}({params}).activate(block) with rule degrees {degs}, loaded {loaded}, enabled {enabled}"}
+                    "call": f"{method}({params}).activate(block) with rule degrees {degs}, loaded {loaded}, enabled {enabled}" + (" (each rule concludes the disabled variable d first: `then d is q and y is c_i`)" if two else "")}
     # vector-incapable methods reject batches
     if method != "General":
         ins = [fl.InputVariable(name="x0", minimum=0.0, maximum=1.0, terms=[fl.Ramp("up", 0.0, 1.0)])]
@@ -782,7 +786,12 @@ def _apply_edit(fl, e, ed):
 def _outputs(fl, e):
     import numpy as np
     # a disabled output variable is left untouched by processing (C12), so its value is not an output of the step
-    return [(ov.name, float(np.take(np.asarray(ov.value, dtype=float), -1)) if ov.enabled else float("nan"), [(a.term.name, float(a.degree)) for a in ov.fuzzy.terms]) for ov in e.output_variables]
+    out = [(ov.name, float(np.take(np.asarray(ov.value, dtype=float), -1)) if ov.enabled else float("nan"), [(a.term.name, float(a.degree)) for a in ov.fuzzy.terms]) for ov in e.output_variables]
+    # the per-rule results of the step (degree, triggered) of every enabled block are part of what a step leaves behind
+    for bi, b in enumerate(e.rule_blocks):
+        if b.enabled:
+            out.append((f"rules of block {bi}", 0.0, [(f"rule {ri} triggered={bool(np.all(r.triggered))}", float(np.take(np.asarray(r.activation_degree, dtype=float), -1))) for ri, r in enumerate(b.rules)]))
+    return out
 
 
 def _same_out(FA, a, b):
